@@ -30,20 +30,20 @@ CobaContext.cacher = MemoryCacher()
 CobaContext.search_paths = []
 
 ICOLS = ['environment_id', 'learner_id', 'evaluator_id', 'index', 'reward']
-ECOLS = ['environment_id', 'data_id', 'seed', 'shape']
-LCOLS = ['learner_id', 'family', 'lr', 'opt']
-VCOLS = ['evaluator_id', 'eval_type']
+ECOLS = ['environment_id', 'data_id', 'index_seed', 'environment_idx']
+LCOLS = ['learner_id', 'family', 'reindex', 'learner_id2']
+VCOLS = ['evaluator_id', 'evaluator_idx']
 
 # two flavours of ids / parameter values.  0: sortable, duplicates, tuple-valued.  1: non-contiguous ids, mixed types
 # (str/int/None: not sortable, so coba takes its unsorted grouping paths), rows handed to the constructor in reverse order.
 ENV_IDS = {0: [0, 1, 2], 1: [3, 5, 6]}
 LRN_IDS = {0: [0, 1, 2], 1: [1, 2, 4]}
 VAL_IDS = {0: [0, 1], 1: [7, 9]}
-ENV_P = {0: {'data_id': [7, 7, 8], 'seed': [1, 2, 1], 'shape': [(1, 'a'), (1, 'b'), (1, 'a')]},
-         1: {'data_id': ['a', 3, 'a'], 'seed': [None, 1, None], 'shape': [(2,), (2,), (3, 'c')]}}
-LRN_P = {0: {'family': ['a', 'a', 'b'], 'lr': [0.1, 0.2, 0.1], 'opt': [('x', 1), ('x', 2), ('x', 1)]},
-         1: {'family': ['a', 1, 'a'], 'lr': [0.5, 0.5, 0.25], 'opt': [('y',), ('y',), ('y',)]}}
-VAL_P = {0: {'eval_type': ['on', 'off']}, 1: {'eval_type': ['on', 'on']}}
+ENV_P = {0: {'data_id': [7, 7, 8], 'index_seed': [1, 2, 1], 'environment_idx': [(1, 'a'), (1, 'b'), (1, 'a')]},
+         1: {'data_id': ['a', 3, 'a'], 'index_seed': [None, 1, None], 'environment_idx': [(2,), (2,), (3, 'c')]}}
+LRN_P = {0: {'family': ['a', 'a', 'b'], 'reindex': [0.1, 0.2, 0.1], 'learner_id2': [('x', 1), ('x', 2), ('x', 1)]},
+         1: {'family': ['a', 1, 'a'], 'reindex': [0.5, 0.5, 0.25], 'learner_id2': [('y',), ('y',), ('y',)]}}
+VAL_P = {0: {'evaluator_idx': ['on', 'off']}, 1: {'evaluator_idx': ['on', 'on']}}
 REWARD_STEP = (0, 3, 1, 2)      # reward = base*4 + REWARD_STEP[i]: unique per row, not monotone inside an evaluation
 
 
@@ -288,9 +288,9 @@ def kind2(c):
 
 
 FIN_N = [None, 'min', 1, 2, 3]
-FIN_L_FULL = [None, 'learner_id', 'family', 'lr', ['family', 'lr'], ['learner_id', 'evaluator_id']]     # 'lr': level order differs from id order
-FIN_P_FULL = [None, 'environment_id', 'data_id', ['data_id', 'seed'], ['environment_id', 'evaluator_id']]
-FIN_LP_RED = [('learner_id', 'environment_id'), ('family', 'environment_id'), ('lr', 'environment_id'), ('learner_id', 'data_id'),
+FIN_L_FULL = [None, 'learner_id', 'family', 'reindex', ['family', 'reindex'], ['learner_id', 'evaluator_id']]     # 'reindex': level order differs from id order
+FIN_P_FULL = [None, 'environment_id', 'data_id', ['data_id', 'index_seed'], ['environment_id', 'evaluator_id']]
+FIN_LP_RED = [('learner_id', 'environment_id'), ('family', 'environment_id'), ('reindex', 'environment_id'), ('learner_id', 'data_id'),
               ('learner_id', ['environment_id', 'evaluator_id']), (['learner_id', 'evaluator_id'], 'environment_id')]
 WHERES = [['where', 'learner_id', [0], 'eq'], ['where', 'learner_id', [1, 0], 'in'], ['where', 'environment_id', [1], 'eq'],
           ['where', 'environment_id', [0, 1], 'in'], ['where', 'data_id', [0], 'eq'], ['where', 'family', [0], 'eq'],
@@ -298,11 +298,11 @@ WHERES = [['where', 'learner_id', [0], 'eq'], ['where', 'learner_id', [1, 0], 'i
 
 
 # two keywords on ONE parameter table; the matches of the second keyword precede those of the first in table order (and the reverse)
-WHERE2 = [['where2', ['family', [2], 'eq'], ['lr', [1], 'eq']], ['where2', ['lr', [1], 'eq'], ['family', [2], 'eq']],
-          ['where2', ['learner_id', [2], 'eq'], ['lr', [1], 'eq']], ['where2', ['lr', [1], 'eq'], ['learner_id', [2], 'eq']],
+WHERE2 = [['where2', ['family', [2], 'eq'], ['reindex', [1], 'eq']], ['where2', ['reindex', [1], 'eq'], ['family', [2], 'eq']],
+          ['where2', ['learner_id', [2], 'eq'], ['reindex', [1], 'eq']], ['where2', ['reindex', [1], 'eq'], ['learner_id', [2], 'eq']],
           ['where2', ['learner_id', [1], 'eq'], ['family', [0], 'eq']],
-          ['where2', ['data_id', [2], 'eq'], ['seed', [1], 'eq']], ['where2', ['seed', [1], 'eq'], ['data_id', [2], 'eq']],
-          ['where2', ['environment_id', [2], 'eq'], ['data_id', [1], 'eq']], ['where2', ['environment_id', [2], 'eq'], ['seed', [1], 'eq']],
+          ['where2', ['data_id', [2], 'eq'], ['index_seed', [1], 'eq']], ['where2', ['index_seed', [1], 'eq'], ['data_id', [2], 'eq']],
+          ['where2', ['environment_id', [2], 'eq'], ['data_id', [1], 'eq']], ['where2', ['environment_id', [2], 'eq'], ['index_seed', [1], 'eq']],
           ['where2', ['environment_id', [1], 'eq'], ['data_id', [0], 'eq']]]
 # keywords on interaction columns: single rows survive, whole triples disappear
 WHEREI = [['wherer', [[0, 0, 0], [0, 1, 0]], 'in'], ['wherer', [[0, 0, 0], [1, 0, 0]], 'in'], ['wherer', [[0, 0, 0]], 'eq'],
@@ -319,11 +319,22 @@ def ops_full():
     out.append([['fin', 2, 'learner_id', 'environment_id', 'filter_fin']])
     out.append([['fin', 'min', None, None, 'filter_fin']])
     # raw_learners
-    for x in ('index', 'environment_id', 'data_id', ['data_id', 'seed'], 'family'):
-        for l in ('full_name', 'learner_id', 'family', ['family', 'lr']):
+    for x in ('index', 'environment_id', 'data_id', ['data_id', 'index_seed'], 'family'):
+        for l in ('full_name', 'learner_id', 'family', ['family', 'reindex']):
             for p in ('environment_id', None, 'data_id'):
                 for span in (None, 1, 2, 5):
                     out.append([['raw', x, l, p, span]])
+    # column names that contain / extend the reserved words ('index', 'learner_id', 'environment_id'), as string and as list
+    for x in ('index_seed', ['index_seed'], 'environment_idx'):
+        for l in ('learner_id', 'reindex'):
+            for p in ('environment_id', None, 'data_id'):
+                for span in (None, 1, 2, 5):
+                    out.append([['raw', x, l, p, span]])
+    for l in ('learner_id2', ['learner_id2', 'reindex']):
+        for p in ('environment_id', None, 'environment_idx'):
+            for span in (None, 2):
+                out.append([['raw', 'index', l, p, span]])
+                out.append([['raw', 'index_seed', l, p, span]])
     # chains
     fins = [[None, None, None], ['min', None, None], [2, None, None], [None, 'learner_id', 'environment_id'],
             ['min', 'learner_id', 'environment_id'], [2, 'family', 'data_id']]
@@ -371,6 +382,9 @@ def ops_reduced():
         for p in ('environment_id', None):
             for span in (None, 2):
                 out.append([['raw', x, 'learner_id', p, span]])
+    for span in (None, 2):
+        out.append([['raw', 'index_seed', 'learner_id', 'environment_id', span]])
+    out.append([['raw', ['index_seed'], 'reindex', 'environment_id', None]])
     out.append([WHERES[0], ['fin', 'min', 'learner_id', 'environment_id']])
     out.append([WHERES[2], ['fin', 2, None, None]])
     out.append([['fin', 2, None, None], ['fin', 'min', 'learner_id', 'environment_id']])
@@ -429,10 +443,10 @@ class C18(Check):
     RULE = ('cases = Results built by the public constructor for (E,L,V) up to (2,2,2)/(2,3,1) (thorough up to (3,3,1)/(3,2,2)) with EVERY presence '
             'pattern of the E*L*V evaluation triples x EVERY assignment of evaluation lengths from {1,3} (thorough {1,2,3}; the largest shapes a '
             'subset) x 2 parameter flavours (duplicate, tuple-valued, mixed-type/None values; non-contiguous ids; reversed row order); on a fresh '
-            'Result per operation: where_fin/filter_fin for n in {None,min,1,2,3} x l in {None, learner_id, family, lr, [family,lr], '
-            '[learner_id,evaluator_id]} x p in {None, environment_id, data_id, [data_id,seed], [environment_id,evaluator_id]}; chains '
+            'Result per operation: where_fin/filter_fin for n in {None,min,1,2,3} x l in {None, learner_id, family, reindex, [family,reindex], '
+            '[learner_id,evaluator_id]} x p in {None, environment_id, data_id, [data_id,index_seed], [environment_id,evaluator_id]}; chains '
             'where->where_fin (where: one keyword on an id/parameter column; TWO keywords on columns of one parameter table in both orders, the second keyword matching rows that precede the first keyword\'s; keywords on the interaction columns reward/index), where_fin->where_fin, where_fin->where->where_fin, where_best->where_fin, where->where_fin->where_best, where_fin->where_best->where_fin, where->raw_learners, where_fin->raw_learners; '
-            'raw_learners for x in {index, environment_id, data_id, [data_id,seed], family} x l in {full_name, learner_id, family, [family,lr]} '
+            'raw_learners for x in {index, environment_id, data_id, [data_id,index_seed], family, index_seed, [index_seed], environment_idx} x l in {full_name, learner_id, family, [family,reindex], reindex, learner_id2, [learner_id2,reindex]} (parameter columns are deliberately named index_seed, reindex, learner_id2, environment_idx, evaluator_idx: they contain or extend the reserved column names) '
             'x p in {environment_id, None, data_id} x span in {None,1,2,5} (large shapes: a reduced operation list); plus moving_average for '
             'every value sequence of length <=5 over a 3 (thorough 5) letter alphabet x span in {None,1,2,3,4,5,9} x weights in {None, exp, 3-4 '
             'lists}; all enumerated exhaustively, smallest first. A case is non-trivial when some operation removed or shortened something but '
@@ -720,7 +734,7 @@ class C18(Check):
             return r.violations[0][0] if r.violations and r.violations[0][0].split('|')[1] == mode else None
 
         if raw:
-            cands = [{3: None}, {2: 'learner_id'}, {1: 'index' if step[1] == 'index' else 'environment_id'}, {4: None}]
+            cands = [{3: None}, {3: 'environment_id'} if step[3] else {3: None}, {2: 'learner_id'}, {1: 'index' if step[1] == 'index' else 'environment_id'}, {4: None}]
         else:
             cands = [{2: None, 3: None}, {1: None}, {2: 'learner_id'}, {3: 'environment_id'}]
         key = None
